@@ -324,7 +324,7 @@ fn subscription_job(op: Op1, head: Src, len: usize, devs: u32) -> Job {
 pub fn plan(tier: Tier) -> Plan {
   let (len, devs, len0) = match tier {
     Tier::Quick => (11, 3, 15),
-    Tier::Thorough => (13, 4, 18),
+    Tier::Thorough => (15, 5, 22),
   };
   let mut jobs = vec![];
   let moving = vec![
